@@ -1,5 +1,6 @@
 """Per-function driver: build the initial symbolic state from the contract, execute the real
 function body, emit the post-condition obligations, and package everything for the solvers."""
+import ast
 import z3
 from .kinds import *
 from .values import *
@@ -59,6 +60,26 @@ def verify_function(reg, qual, prop):
         if n not in spec.params:
             # parameter fixed by its default (e.g. verbose=False) or by spec.fixed
             continue
+    body_stmts = fi.node.body
+    if spec.region:
+        # a contiguous slice of the function's own top-level statements, located by the text of its first statement
+        # and of the statement it stops before; everything outside the slice is NOT verified by this contract
+        def first_line(n):
+            try:
+                return ast.unparse(n).splitlines()[0].strip()
+            except Exception:
+                return ""
+        lines = [first_line(n) for n in fi.node.body]
+        try:
+            a = lines.index(spec.region[0])
+            b = lines.index(spec.region[1], a) if spec.region[1] else len(lines)
+        except ValueError:
+            res.error = "region %r .. %r not found in %s (statement text changed?)" % (spec.region[0], spec.region[1], qual)
+            return res
+        body_stmts = fi.node.body[a:b]
+        ctx.dropped.append("%s: statements of %s before line %d and from line %s on are outside this contract's region"
+                           % (fi.path, fi.short, fi.node.body[a].lineno, fi.node.body[b].lineno if b < len(lines) else "end"))
+        argnames = list(spec.params)
     for n, ktxt in spec.params.items():
         if n not in argnames:
             res.error = "contract parameter %s is not a parameter of %s any more" % (n, qual)
@@ -73,8 +94,12 @@ def verify_function(reg, qual, prop):
         inputs.append((n, k))
     for n, q in spec.bind.items():
         st.vars[n] = Val(FUNC, [], py=("func", reg.index.funcs[q]))
+    for n, fname in spec.abstract.items():
+        st.vars[n] = Val(FUNC, [], py=("abstract", fname))
+    for n, text in spec.let.items():
+        st.vars[n] = ex.eval_spec_term(text, st)
     # parameters not mentioned in the contract take their default value
-    defaults = fi.node.args.defaults
+    defaults = fi.node.args.defaults if not spec.region else []
     for n, d in zip(argnames[len(argnames) - len(defaults):], defaults):
         if n not in st.vars:
             st.vars[n] = ex.eval(d, State({}, {}, TRUE))
@@ -111,7 +136,7 @@ def verify_function(reg, qual, prop):
         ex.old_state = old
         # heap arrays created lazily after this point must be shared with `old`
         _share_heap(ex, old, body_state)
-        out = ex.exec_block(fi.node.body, body_state)
+        out = ex.exec_block(body_stmts, body_state)
         final = out.ret
         if out.normal is not None:
             out.normal.vars["$ret"] = vnone()
